@@ -12,7 +12,7 @@ string / integer subscripts, hawk::array() elements), run them on the real inter
   2. CORRESPONDENCE: every line also equals the line the Lean model (hawkdrv expr) computes.
 
 A difference in (2) alone is reported as a correspondence break (no failing input found)."""
-import os, re, sys, time, itertools, hashlib
+import os, re, sys, time, itertools, hashlib, threading
 from concurrent.futures import ThreadPoolExecutor
 from .. import common as C
 
@@ -25,7 +25,24 @@ VARIANTS = ["lit", "named", "gbl", "lcl", "arg", "ref", "map", "mapi", "arr"]
 # float free lists) runs between the creation of the operands and the evaluation ("+h"); "named+ha" creates the
 # operands after the preamble. A value must not depend on what the recycled object was in its previous life.
 HIST_VARIANTS = [v + "+h" for v in VARIANTS] + ["named+ha"]
-ALL_VARIANTS = VARIANTS + HIST_VARIANTS
+# further placements, run on the `extra` family of trees (everything that assigns, all inc/dec pairs, a sample):
+#  gmap/lmap/amap  element of a map held by a @global / @local / parameter           (eval_gblidx/lclidx/argidx)
+#  refm/refa/refg/refl/refp  by-reference parameters whose ARGUMENTS are map elements, array elements, globals,
+#                            locals of the caller, parameters of the caller (get_reference*, hawk_rtx_setrefval)
+EXTRA_VARIANTS = ["gmap", "lmap", "amap", "refm", "refa", "refg", "refl", "refp"]
+# placements the Lean model does not cover; decided by the cross-variant oracle only:
+#  nmap/narr  element of a nested map / nested array (do_assignment_indexed / eval_indexed remidx loops)
+#  mapc       element under a comma subscript m[c, i] (idxnde_to_str with SUBSEP)
+#  pos/pos0   the assignment targets are the fields $1.. / the record $0 (do_assignment_positional); a field holds a
+#             string, so only the value of the expression and the TEXT of the final field are compared
+#  refn       by-reference parameters whose arguments are elements of a nested map (get_reference_indexed remidx loop)
+#  refpos     by-reference parameters whose arguments are fields
+UNMODELLED_VARIANTS = ["nmap", "narr", "mapc", "refn", "pos", "pos0", "refpos"]
+POS_VARIANTS = ("pos", "pos0", "refpos")
+ALL_VARIANTS = VARIANTS + HIST_VARIANTS + EXTRA_VARIANTS + UNMODELLED_VARIANTS
+MODELLED = set(VARIANTS + EXTRA_VARIANTS)
+# variants that write a unary operator as the bare right operand of ** (`a ** -b`: parse_unary_exp, no folding)
+BARE_EXP = ("gbl", "arg", "mapi", "lit+h", "named+ha", "refm", "lmap")
 
 
 def base_of(variant):
@@ -227,8 +244,9 @@ class Info:
             self._walk(t[2], True)
 
 
-def render(tree, sp, name, is_lit):
-    """fully parenthesised hawk source; name(i) = how slot i is written, is_lit(i) = write its literal instead"""
+def render(tree, sp, name, is_lit, bare_exp=False):
+    """fully parenthesised hawk source; name(i) = how slot i is written, is_lit(i) = write its literal instead.
+    bare_exp: a unary operator that is the right operand of ** is written without its own parentheses"""
     ctr = [0]
 
     def leaf(t):
@@ -247,9 +265,15 @@ def render(tree, sp, name, is_lit):
                 return "(" + lit_src(info_vals[i]) + ")"
             return name(i)
         if k == "U":
+            if t[1] in IN_OPS:
+                # the `in` operator: the left operand is the tree, the right one a fixed map / array (not modelled in Lean)
+                return "((" + go(t[2]) + ") in " + IN_OPS[t[1]] + ")"
             return "(" + sp.un[t[1]] + "(" + go(t[2]) + "))"
         if k == "B":
-            a = go(t[2]); b = go(t[3])
+            a = go(t[2])
+            if bare_exp and t[1] == "exp" and t[3][0] == "U":
+                return "((" + a + ") " + sp.bin[t[1]] + " " + sp.un[t[3][1]] + "(" + go(t[3][2]) + "))"
+            b = go(t[3])
             return "((" + a + ") " + sp.bin[t[1]] + " (" + b + "))"
         if k == "C":
             a = go(t[1]); b = go(t[2]); c = go(t[3])
@@ -269,7 +293,18 @@ def render(tree, sp, name, is_lit):
 # ------------------------------------------------------------------------------------------------
 # variant programs
 # ------------------------------------------------------------------------------------------------
-HDR = 'function T(v) { return hawk::typename(v) " [" v "]"; }\n'
+IN_OPS = {"inm": "INM", "ina": "INA"}
+HDR = ('function T(v) { return hawk::typename(v) " [" v "]"; }\n'
+       'BEGIN { INM["3"] = 1; INM["7"] = 1; INM["x"] = 1; INM["0.5"] = 1; INM[""] = 1; INM["10"] = 1; INM["-1"] = 1; INM["2"] = 1; INM["37"] = 1;\n'
+       '  INM["2305843009213693951"] = 1; INM["9223372036854775807"] = 1; INM["1"] = 1; INM["0"] = 1; INM["a"] = 1;\n'
+       '  INA = hawk::array(); INA[1] = 1; INA[2] = 1; INA[7] = 1; }\n')
+
+
+def has_in(t):
+    if t[0] == "U" and t[1] in IN_OPS:
+        return True
+    return any(isinstance(x, tuple) and x and isinstance(x[0], str) and x[0] in ("L", "V", "U", "B", "C", "A", "PRE", "PST") and has_in(x)
+               for x in t[1:])
 
 HIST_FILE_LINES = ["10", "9", "1.5", "-1", "1e1", "1234567890123456", "12345678901234567890123456789012"]
 NUMKEYS = ["10", "9", "1.5", "-1", "1e1", "100", "7", "0x10",
@@ -297,22 +332,110 @@ def hist_function(path):
 HIST_PATH = ["/dev/null"]
 
 
-def slot_name(variant, c, i):
+def pos_ok(tree):
+    """the positional variants apply when every use of an assignment target is in target position (a field read as an
+    ordinary operand is a numeric STRING and legitimately compares / negates / concatenates differently) and no target
+    starts as a byte string or byte character (a field is a character string)"""
+    info = Info(tree)
+    if not info.targets:
+        return False
+    if any(info.vals[i][0] in ("m", "b") for i in info.targets):
+        return False
+    # a float whose text is integral comes back from the field as an integer (2.0 -> "2"): a different operand
+    if any(info.vals[i][0] == "f" and (info.vals[i][2] >= 0 or info.vals[i][1] % (10 ** -info.vals[i][2]) == 0) for i in info.targets):
+        return False
+    ctr = [0]
+    ok = [True]
+    hits = {}
+
+    def go(t, is_target):
+        k = t[0]
+        if k == "L":
+            i = ctr[0]; ctr[0] += 1
+            if i in info.targets and not is_target:
+                ok[0] = False
+            if is_target:
+                hits[i] = hits.get(i, 0) + 1
+        elif k == "V":
+            if t[1] in info.targets and not is_target:
+                ok[0] = False
+            if is_target:
+                hits[t[1]] = hits.get(t[1], 0) + 1
+        elif k == "U":
+            go(t[2], False)
+        elif k == "B":
+            go(t[2], False); go(t[3], False)
+        elif k == "C":
+            go(t[1], False); go(t[2], False); go(t[3], False)
+        elif k == "A":
+            go(t[2], True); go(t[3], False)
+        else:
+            go(t[2], True)
+    go(tree, False)
+
+    # `$1 op= y` yields the field itself (a string): as an operand of a further operator it is not the number `x op= y`
+    # yields. ++$1 $1++ --$1 $1-- yield numbers and may sit anywhere
+    def nested_assign(t, root):
+        k = t[0]
+        if k == "A":
+            return (not root) or nested_assign(t[3], False)
+        if k == "U":
+            return nested_assign(t[2], False)
+        if k == "B":
+            return nested_assign(t[2], False) or nested_assign(t[3], False)
+        if k == "C":
+            return any(nested_assign(x, False) for x in t[1:])
+        return False
+    # a field is assigned once: what a second operation would read back is again the text
+    return ok[0] and all(n == 1 for n in hits.values()) and not nested_assign(tree, True)
+
+
+def applicable(variant, tree):
+    b = base_of(variant)
+    if b in POS_VARIANTS:
+        if not pos_ok(tree):
+            return False
+        if b == "pos0" and len(Info(tree).targets) != 1:
+            return False
+    return True
+
+
+def slot_name(variant, c, i, info=None):
     variant = base_of(variant)
     if variant in ("lit", "named", "ref"):
         return "v%d_%d" % (c, i)
-    if variant == "gbl":
+    if variant in ("gbl", "refg"):
         return "G%d_%d" % (c, i)
-    if variant == "lcl":
+    if variant in ("lcl", "refl"):
         return "l%d" % i
     if variant == "arg":
         return "p%d" % i
-    if variant == "map":
+    if variant == "refp":
+        return "q%d" % i
+    if variant in ("map", "refm"):
         return 'M%d["k%d"]' % (c, i)
     if variant == "mapi":
         return "M%d[%d]" % (c, i)
-    if variant == "arr":
+    if variant in ("arr", "refa"):
         return "A%d[%d]" % (c, i + 1)
+    if variant == "gmap":
+        return 'GM%d["k%d"]' % (c, i)
+    if variant == "lmap":
+        return 'LM["k%d"]' % i
+    if variant == "amap":
+        return 'AM["k%d"]' % i
+    if variant in ("nmap", "refn"):
+        return 'N%d["a"]["k%d"]' % (c, i)
+    if variant == "narr":
+        return "A%d[1][%d]" % (c, i + 1)
+    if variant == "mapc":
+        return 'M%d[%d, "k"]' % (c, i)
+    if variant in POS_VARIANTS:
+        if i in info.targets:
+            if variant == "pos0":
+                return "$0"
+            return "$%d" % (sorted(info.targets).index(i) + 1)
+        return "v%d_%d" % (c, i)
     raise ValueError(variant)
 
 
@@ -322,18 +445,26 @@ def case_fragment(variant, c, tree, sp):
     n = len(info.vals)
     hist = variant.split("+")[1] if "+" in variant else ""
     base = base_of(variant)
-    name = lambda i: slot_name(base, c, i)
+    name = lambda i: slot_name(base, c, i, info)
+    bare = variant in BARE_EXP
     decl, funs, body = [], [], []
     if base == "lit":
         is_lit = lambda i: i not in info.targets
     else:
         is_lit = lambda i: False
-    if base == "ref":
-        expr = render(tree, sp, lambda i: "p%d" % i, is_lit)
+    byref = base.startswith("ref")
+    if byref:
+        expr = render(tree, sp, lambda i: "p%d" % i, is_lit, bare)
     else:
-        expr = render(tree, sp, name, is_lit)
+        expr = render(tree, sp, name, is_lit, bare)
     inits = ["%s = (%s);" % (name(i), lit_src(info.vals[i])) for i in range(n)
              if info.vals[i][0] != "n" and not is_lit(i)]
+    if base in ("arr", "refa"):
+        inits = ["A%d = hawk::array();" % c] + inits
+    elif base == "narr":
+        inits = ["A%d = hawk::array();" % c] + inits      # A[1] does not exist yet: the first access creates the inner array
+    elif base in POS_VARIANTS:
+        inits = ['$0 = "";'] + inits
     H = ["H();"] if hist else []
     if hist == "ha":
         pre = H + inits      # operands created after the preamble
@@ -342,26 +473,43 @@ def case_fragment(variant, c, tree, sp):
     shown = ["T(%s)" % name(i) if not is_lit(i) else '"-"' for i in range(n)]
     outexpr = ' ";" '.join(shown) if shown else '""'
     pr = 'print "%d\\t" T(r) "|" %s;' % (c, outexpr)
-    if base in ("lit", "named", "map", "mapi"):
+    if base in ("lit", "named", "map", "mapi", "arr", "nmap", "narr", "mapc", "pos", "pos0"):
         body += pre + ["r = %s;" % expr, pr]
-    elif base == "arr":
-        body += ["A%d = hawk::array();" % c] + pre + ["r = %s;" % expr, pr]
-    elif base == "gbl":
-        if n:
+    elif base in ("gbl", "gmap"):
+        if base == "gmap":
+            decl.append("@global GM%d;" % c)
+        elif n:
             decl.append("@global " + ", ".join(name(i) for i in range(n)) + ";")
         body += pre + ["r = %s;" % expr, pr]
-    elif base == "lcl":
-        loc = ", ".join(["r"] + [name(i) for i in range(n)])
+    elif base in ("lcl", "lmap"):
+        loc = ", ".join(["r"] + ([name(i) for i in range(n)] if base == "lcl" else ["LM"]))
         funs.append("function F%d() { @local %s; %s r = %s; %s }" % (c, loc, " ".join(pre), expr, pr))
+        body.append("F%d();" % c)
+    elif base == "amap":
+        funs.append("function F%d(AM) { @local r; %s r = %s; %s }" % (c, " ".join(pre), expr, pr))
         body.append("F%d();" % c)
     elif base == "arg":
         params = ", ".join(name(i) for i in range(n))
         funs.append("function F%d(%s) { @local r; %s r = %s; %s }" % (c, params, " ".join(H), expr, pr))
         body.append("F%d(%s);" % (c, ", ".join("(" + lit_src(v) + ")" for v in info.vals)))
-    elif base == "ref":
+    elif byref:
         params = ", ".join("&p%d" % i for i in range(n))
         funs.append("function F%d(%s) { %s return %s; }" % (c, params, " ".join(H), expr))
-        body += inits + ["r = F%d(%s);" % (c, ", ".join(name(i) for i in range(n))), pr]
+        call = "r = F%d(%s);" % (c, ", ".join(name(i) for i in range(n)))
+        if base == "refg" and n:
+            decl.append("@global " + ", ".join(name(i) for i in range(n)) + ";")
+        if base == "refl":
+            loc = ", ".join(["r"] + [name(i) for i in range(n)])
+            funs.append("function C%d() { @local %s; %s %s %s }" % (c, loc, " ".join(inits), call, pr))
+            body.append("C%d();" % c)
+        elif base == "refp":
+            params2 = ", ".join(name(i) for i in range(n))
+            funs.append("function C%d(%s) { @local r; %s %s }" % (c, params2, call, pr))
+            body.append("C%d(%s);" % (c, ", ".join("(" + lit_src(v) + ")" for v in info.vals)))
+        else:
+            body += inits + [call, pr]
+    else:
+        raise ValueError(variant)
     return decl, funs, body
 
 
@@ -390,6 +538,7 @@ class Runner:
         self.hawk = hawk
         self.sp = sp
         self.nproc = 0
+        self.seq = itertools.count()
         self.ntimeouts = 0
         self.dir = os.path.join(ctx.scratch, "c08")
         os.makedirs(self.dir, exist_ok=True)
@@ -399,7 +548,8 @@ class Runner:
 
     def run_program(self, text, ncases):
         self.nproc += 1
-        h = hashlib.sha1(text.encode()).hexdigest()[:16]
+        # unique per run: two variants of one tree can have identical text and run concurrently
+        h = hashlib.sha1(text.encode()).hexdigest()[:12] + "-%d-%d" % (threading.get_ident(), next(self.seq))
         p = os.path.join(self.dir, h + ".hawk")
         with open(p, "w") as f:
             f.write(text)
@@ -490,7 +640,7 @@ class Runner:
         self.run_batch(variant, rest[mid:], res)
 
 
-def run_all(ctx, runner, trees, model, keep, hist=(), batch=150):
+def run_all(ctx, runner, trees, model, keep, hist=(), extra=(), batch=150):
     """trees: list of trees. model[(c, variant)] = model line. keep: indices to run; hist: indices that are also run
     in the history variants. Returns hres[(c, variant)]"""
     jobs = []
@@ -499,7 +649,10 @@ def run_all(ctx, runner, trees, model, keep, hist=(), batch=150):
         for c, t in enumerate(trees):
             if c not in keep or ("+" in v and c not in hist):
                 continue
-            m = model.get((c, base_of(v)), "")
+            if v in EXTRA_VARIANTS or v in UNMODELLED_VARIANTS:
+                if c not in extra or not applicable(v, t):
+                    continue
+            m = model.get((c, base_of(v)) if base_of(v) in MODELLED else (c, "named"), "")
             if m == "SKIP":
                 continue
             # predicted failures run alone so that they do not abort their neighbours
@@ -523,18 +676,26 @@ def run_all(ctx, runner, trees, model, keep, hist=(), batch=150):
     return hres
 
 
-def run_model(ctx, trees):
+def run_model(ctx, trees, extra=None):
     lines = []
     keys = []
     for c, t in enumerate(trees):
         tk = " ".join(tokens(t))
-        for v in VARIANTS:
+        for v in VARIANTS + (EXTRA_VARIANTS if (extra is None or c in extra) else []):
             lines.append(v + " " + tk)
             keys.append((c, v))
-    out = C.run_driver(ctx, "expr", lines, timeout=120 + len(lines) * 0.01)
+    # the driver evaluates every line under five salts: split the work over a few driver processes
+    nchunk = 6
+    size = (len(lines) + nchunk - 1) // nchunk or 1
+    chunks = [lines[i:i + size] for i in range(0, len(lines), size)]
+    C.driver_exe(ctx)
+    with ThreadPoolExecutor(nchunk) as ex:
+        outs = list(ex.map(lambda ch: C.run_driver(ctx, "expr", ch, timeout=120 + len(ch) * 0.02), chunks))
+    out = [l for o in outs for l in o]
     if len(out) != len(lines):
         raise RuntimeError("model driver returned %d lines for %d cases" % (len(out), len(lines)))
-    return {k: canon(o) for k, o in zip(keys, out)}
+    unm = {c for c, t in enumerate(trees) if has_in(t)}
+    return {k: ("?unmodelled" if k[0] in unm else canon(o)) for k, o in zip(keys, out)}
 
 
 # ------------------------------------------------------------------------------------------------
@@ -564,6 +725,23 @@ def variants_agree(lines, ntargets_info):
         if v == ref_v:
             continue
         r, s = split_line(l)
+        if base_of(v) in POS_VARIANTS:
+            # a field holds a string: the value of the expression must be the same, the final field the same TEXT
+            if s is None or rs is None:
+                if l != ref:
+                    return ("diff", "%s: %s but %s: %s" % (v, l, ref_v, ref))
+                continue
+            # (a field's text decides int/flt: 2.0 is stored as "2"; and `$1 op= y` yields the field, a string)
+            bad = (r.split(" ", 1)[1:] != rr.split(" ", 1)[1:] or len(s) != len(rs))
+            for i in range(min(len(s), len(rs))):
+                if i in info.targets:
+                    if s[i].split(" ", 1)[1:] != rs[i].split(" ", 1)[1:]:
+                        bad = True
+                elif s[i] != rs[i]:
+                    bad = True
+            if bad:
+                return ("diff", "%s: %s but %s: %s" % (v, l, ref_v, ref))
+            continue
         if base_of(v) == "lit":
             if l.startswith("ERR") and not ref.startswith("ERR"):
                 if l == "ERR91":
@@ -611,6 +789,26 @@ def gen_depth1():
             out.append(("PRE", op, L(a)))
             out.append(("PST", op, L(a)))
     out += gen_boundary()
+    out += gen_in()
+    return out
+
+
+def gen_in():
+    """the `in` operator with the left operand under every placement (decided by the cross-variant oracle; no Lean model)"""
+    out = []
+    keys = LEAVES + BOUNDARY[:4] + [("s", "10"), ("s", "0.5"), ("s", "-1"), ("f", 10, 0), ("b", 0x37), ("i", 37)]
+    for op in IN_OPS:
+        for a in keys:
+            out.append(("U", op, L(a)))
+        for a in keys[:12]:
+            out.append(("B", "plus", ("U", op, L(a)), L(("i", 1))))
+            out.append(("C", ("U", op, L(a)), L(("s", "y")), L(("i", 0))))
+            out.append(("A", "none", L(("n",)), ("U", op, L(a))))
+            out.append(("U", op, ("PST", "plus", L(a))))
+            out.append(("U", op, ("A", "plus", L(a), L(("i", 1)))))
+            for b in (("i", 7), ("s", ""), ("f", 5, -1)):
+                out.append(("U", op, ("B", "concat", L(a), L(b))))
+                out.append(("U", op, ("B", "plus", L(a), L(b))))
     return out
 
 
@@ -681,6 +879,16 @@ def gen_two_ops_all():
                         yield ("A", aop, L(c), ("B", inner, L(a), L(b)))
 
 
+def inc_leaves():
+    extra = [("s", "2.5"), ("s", "-0.75"), ("s", "1e1"), ("s", "0x10"), ("s", " 7 "), ("s", "7x"), ("m", b"3.5"), ("m", b"-2"),
+             ("m", b"x"), ("c", "7"), ("b", 0x37), ("f", -25, -1), ("f", 1, 19), ("i", INT_MAX - 1), ("i", INT_MIN + 1)]
+    seen, out = set(), []
+    for l in LEAVES + BOUNDARY + HIST_LEAVES + extra:
+        if l not in seen:
+            seen.add(l); out.append(l)
+    return out
+
+
 def pair_cases():
     """(kind, tree_a, tree_b): the two trees must print the same result and the same final value of slot 0"""
     out = []
@@ -694,11 +902,20 @@ def pair_cases():
             for b in STEPS:
                 out.append(("assop", ("A", op, L(a), L(b)), ("A", "none", L(a), ("B", op, ("V", 0), L(b)))))
                 out.append(("assop", ("A", op, L(b), L(a)), ("A", "none", L(b), ("B", op, ("V", 0), L(a)))))
-    for a in LEAVES + BOUNDARY:
-        out.append(("incpre", ("PRE", "plus", L(a)), ("A", "plus", L(a), L(("i", 1)))))
-        out.append(("incpre", ("PRE", "minus", L(a)), ("A", "plus", L(a), L(("i", -1)))))
-        out.append(("incpst", ("PST", "plus", L(a)), ("A", "plus", L(a), L(("i", 1)))))
-        out.append(("incpst", ("PST", "minus", L(a)), ("A", "plus", L(a), L(("i", -1)))))
+    # THE INC/DEC CLAUSE, for every kind of operand: ++x / x++ / --x / x-- against x += 1 / x -= 1 / x = x + 1 (value of the
+    # prefix forms and final value of x for all four), and the value of the postfix forms against unary plus
+    for a in INC_LEAVES:
+        one, mone = L(("i", 1)), L(("i", -1))
+        for kind, form in (("incpre", "PRE"), ("incpst", "PST")):
+            out.append((kind, (form, "plus", L(a)), ("A", "plus", L(a), one)))
+            out.append((kind, (form, "plus", L(a)), ("A", "none", L(a), ("B", "plus", ("V", 0), one))))
+            out.append((kind, (form, "plus", L(a)), ("A", "minus", L(a), mone)))
+            out.append((kind, (form, "minus", L(a)), ("A", "plus", L(a), mone)))
+            out.append((kind, (form, "minus", L(a)), ("A", "minus", L(a), one)))
+            out.append((kind, (form, "minus", L(a)), ("A", "none", L(a), ("B", "minus", ("V", 0), one))))
+        out.append(("incpst-val", ("PST", "plus", L(a)), ("U", "plus", L(a))))
+        out.append(("incpst-val", ("PST", "minus", L(a)), ("U", "plus", L(a))))
+        out.append(("incpre", ("PRE", "plus", L(a)), ("PRE", "plus", L(a))))
     # right-hand sides that assign to the target: evaluation order becomes visible
     for op in ("plus", "mul", "concat", "minus"):
         for a in (("i", 1), ("f", 7, 0)):
@@ -717,6 +934,8 @@ def gen_random(rng, depth):
         nslots[0] += 1
         if pool is LEAVES and rng.random() < 0.12:
             return L(rng.choice(BOUNDARY))
+        if pool is LEAVES and rng.random() < 0.03:
+            return L(rng.choice([("b", 0x37), ("b", 0x61), ("s", "2.5"), ("m", b"3.5")]))
         return L(rng.choice(pool))
 
     def target():
@@ -826,6 +1045,7 @@ def valid_tree(t):
 
 def eval_tree(runner, tree, variants=ALL_VARIANTS):
     runner.ntimeouts = 0
+    variants = [v for v in variants if applicable(v, tree)]
 
     def one(v):
         r = {}
@@ -938,9 +1158,9 @@ def build_cases(ctx):
         pair_idx.append((kind, seen[" ".join(tokens(a))], seen[" ".join(tokens(b))]))
     two = list(gen_two_ops_all())
     if ctx.tier == "quick":
-        two = rng.sample(two, 3500)
+        two = rng.sample(two, 2500)
     add(two, "two-ops")
-    nrand = 2500 if ctx.tier == "quick" else 15000
+    nrand = 2000 if ctx.tier == "quick" else 15000
     rnd = []
     for i in range(nrand):
         rnd.append(gen_random(rng, rng.choice([2, 3, 3, 4, 4])))
@@ -954,18 +1174,38 @@ def build_cases(ctx):
     for t in hf:
         hist.add(seen[" ".join(tokens(t))])
     others = [c for c in range(len(trees)) if c not in hist]
-    for c in rng.sample(others, min(len(others), 1200 if ctx.tier == "quick" else 12000)):
+    for c in rng.sample(others, min(len(others), 800 if ctx.tier == "quick" else 12000)):
         hist.add(c)
     for c in range(len(trees)):
         if tags[c] == "corpus":
             hist.add(c)
-    return trees, tags, pair_idx, hist
+    # the extra-placement family: both sides of every inc/dec pair, every one-operator inc/dec tree, the corpus, a seeded
+    # sample of the trees that assign and of the rest
+    extra = set()
+    for kind, ia, ib in pair_idx:
+        if kind.startswith("inc"):
+            extra.add(ia); extra.add(ib)
+    assigning, plain = [], []
+    for c, t in enumerate(trees):
+        if tags[c] == "corpus" or t[0] in ("PRE", "PST"):
+            extra.add(c)
+        elif c not in extra:
+            (assigning if Info(t).targets else plain).append(c)
+    q = ctx.tier == "quick"
+    for c in rng.sample(assigning, min(len(assigning), 1200 if q else 14000)):
+        extra.add(c)
+    for c in rng.sample(plain, min(len(plain), 500 if q else 4000)):
+        extra.add(c)
+    return trees, tags, pair_idx, hist, extra
 
 
 HIST_LEAVES = [("s", "10"), ("s", "9"), ("s", "10.0"), ("s", "1.5"), ("s", "-1"), ("s", "1e1"), ("s", "abc"), ("s", " 10"),
                ("s", "12345678901234567"), ("s", ""), ("m", b""), ("i", 9), ("i", 10), ("f", 10, 0), ("f", 15, -1), ("i", 2 ** 61 + 1),
                ("m", b"10"), ("m", b"9"), ("c", "9"), ("n",)]
 HIST_BINOPS = ["eq", "ne", "gt", "ge", "lt", "le", "teq", "tne", "plus", "minus", "mul", "concat", "ma"]
+
+
+INC_LEAVES = inc_leaves()
 
 
 def gen_history_family():
@@ -993,22 +1233,30 @@ def gen_history_family():
 
 
 def compare_pairs(trees, hres, pair_idx):
-    """oracle for the compound-assignment and increment/decrement clauses, on hawk's output"""
+    """oracle for the compound-assignment and increment/decrement clauses, on hawk's output, in every placement"""
     out = []
     for kind, ia, ib in pair_idx:
-        for v in VARIANTS:
+        for v in ALL_VARIANTS:
             la, lb = hres.get((ia, v)), hres.get((ib, v))
             if la is None or lb is None:
                 continue
+            if kind == "incpst-val" and base_of(v) in ("lit",) + POS_VARIANTS:
+                continue        # +x is a literal / a field read: not the same operand
             ra, sa = split_line(la)
             rb, sb = split_line(lb)
             if sa is None or sb is None:
                 same = (la == lb)      # both must fail alike
+            elif base_of(v) in POS_VARIANTS:
+                # text only: `$1 op= y` yields the field (a string), ++$1 a number
+                tx = lambda z: z.split(" ", 1)[1:]
+                same = (tx(sa[0]) == tx(sb[0])) and (kind == "incpst" or tx(ra) == tx(rb))
             elif kind == "incpst":
-                same = (sa[0] == sb[0])      # final value of x; the value of x++ is checked against the model and unary plus below
+                same = (sa[0] == sb[0])      # final value of x (the value of x++ is the incpst-val pair)
+            elif kind == "incpst-val":
+                same = (ra == rb)
             else:
                 same = (ra == rb and sa[0] == sb[0])
-            if v == "lit" and (la.startswith("ERR") != lb.startswith("ERR")):
+            if base_of(v) == "lit" and (la.startswith("ERR") != lb.startswith("ERR")):
                 continue   # eager folding error, reported by the variant oracle
             if not same:
                 out.append((kind, ia, ib, v, la, lb))
@@ -1024,10 +1272,10 @@ def run(ctx):
     libdir = C.build_libhawk(ctx)
     hawk = private_cli(ctx, libdir)
     runner = Runner(ctx, hawk, sp)
-    trees, tags, pair_idx, hist = build_cases(ctx)
-    ctx.log("%d expression trees x %d variants, %d of them also x %d history variants" % (len(trees), len(VARIANTS), len(hist), len(HIST_VARIANTS)))
+    trees, tags, pair_idx, hist, extra = build_cases(ctx)
+    ctx.log("%d expression trees x %d variants, %d of them also x %d history variants, %d x %d further placements" % (len(trees), len(VARIANTS), len(hist), len(HIST_VARIANTS), len(extra), len(EXTRA_VARIANTS) + len(UNMODELLED_VARIANTS)))
     t0 = time.time()
-    model = run_model(ctx, trees)
+    model = run_model(ctx, trees, extra)
     ctx.log("model: %d lines in %.1fs" % (len(model), time.time() - t0))
     t0 = time.time()
     # trees the model expects to fail at run time cost one process per variant: the quick tier runs a seeded sample of them
@@ -1038,7 +1286,7 @@ def run(ctx):
         drop = set(failing) - set(ctx.rng.sample(failing, min(len(failing), 300)))
         keep -= drop
         ctx.log("quick tier: %d of %d failing trees sampled" % (len(failing) - len(drop), len(failing)))
-    hres = run_all(ctx, runner, trees, model, keep, hist)
+    hres = run_all(ctx, runner, trees, model, keep, hist, extra)
     ctx.log("hawk: %d results from %d processes in %.1fs" % (len(hres), runner.nproc, time.time() - t0))
 
     # ---- phase 1: the property, on hawk's output alone
@@ -1090,6 +1338,7 @@ def run(ctx):
                 " ".join(tokens(trees[ia])), " ".join(tokens(trees[ib])), v, la, lb,
                 program(v, [(0, trees[ia])], sp), program(v, [(0, trees[ib])], sp)), found_input=True, sig="assop-rhs-first")
     if other_pairs:
+        other_pairs.sort(key=lambda pr: (ALL_VARIANTS.index(pr[3]), len(tokens(trees[pr[1]]))))
         kind, ia, ib, v, la, lb = other_pairs[0]
         oracle_hit = True
         ctx.problem("impl", "`%s` prints %s but `%s` prints %s (variant %s; %d such pairs)" % (
@@ -1103,6 +1352,8 @@ def run(ctx):
     nrelaxed = 0
     mism = []
     for (c, v), h in hres.items():
+        if base_of(v) not in MODELLED:
+            continue
         m = model.get((c, base_of(v)), "")
         if m.startswith("?"):
             nrelaxed += 1
@@ -1202,7 +1453,8 @@ def replay(ctx, path):
         print("case: " + " ".join(tokens(tree)))
         print("  " + render(tree, sp, lambda i: "x%d" % i, lambda i: True))
         for v in ALL_VARIANTS:
-            print("  %-8s hawk: %-50s model: %s" % (v, lines[v], model.get((c, base_of(v)))))
+            if v in lines:
+                print("  %-8s hawk: %-50s model: %s" % (v, lines[v], model.get((c, base_of(v)), "(not modelled)")))
         r = variants_agree(lines, Info(tree))
         if r is not None:
             print("  -> " + r[0] + ": " + r[1])
@@ -1210,7 +1462,9 @@ def replay(ctx, path):
         outs.append(lines)
     if len(trees) == 2:
         a, b = outs
-        for v in VARIANTS:
+        for v in ALL_VARIANTS:
+            if v not in a or v not in b:
+                continue
             ra, sa = split_line(a[v]); rb, sb = split_line(b[v])
             if (sa is None or sb is None) and a[v] != b[v] or (sa and sb and (sa[0] != sb[0])):
                 print("  pair differs in variant %s: %s vs %s" % (v, a[v], b[v]))
